@@ -126,19 +126,7 @@ class Prover(object):
 
     # -------------------------------------------------------------- atoms
     def is_load_match(self, atom):
-        """R7: ite(x <= 0, 1, (x + 1/x - 1)/(x + 1/x))."""
-        if atom.kind != "ite":
-            return False
-        c, pa, pb, ck = atom.parts
-        if pa.const_value() != 1:
-            return False
-        if not (isinstance(ck, tuple) and ck and ck[0] == "le0"):
-            return False
-        px = self.A.poly_of_pid(ck[1])   # cond is x - 0 <= 0  => x
-        A = self.A
-        s = padd(px, A.inv(px))
-        want = pmul(padd(s, const(-1)), A.inv(s))
-        return want == pb
+        return atom.kind == "lmatch"
 
     def upper_bounds(self, atom, facts):
         if atom.kind == "ind":
@@ -171,7 +159,7 @@ class Prover(object):
             return self.nonneg(atom.parts[0], facts, depth + 1) and self.nonneg(atom.parts[1], facts, depth + 1)
         if k == "max":
             return self.nonneg(atom.parts[0], facts, depth + 1) or self.nonneg(atom.parts[1], facts, depth + 1)
-        if k in ("abs", "ind"):
+        if k in ("abs", "ind", "lmatch"):
             return True
         if k in ("sumt", "poly"):
             self.used_rules.add("R5")
